@@ -32,6 +32,8 @@ def _tau():
 # ------------------------------------------------------------------------------------------------ plain intervals
 
 def grid(r, lim=4096):
+    if r.random() < 0.12:
+        return r.choice([0, 0.0, -0.0, 1, -1])          # zero is special to Python truthiness: keep it frequent
     k = r.randint(-lim, lim)
     return k / 16.0 if r.random() < 0.7 else (k // 16)   # float or int
 
